@@ -263,6 +263,14 @@ class ModelTable(dict):
         return m
 
 
+def _static_flag(obj, name):
+    """flag lookup that does not trigger __getattr__ (pl.col.<anything> builds an expression whose truth value raises)"""
+    try:
+        return inspect.getattr_static(obj, name, False) is True
+    except Exception:  # noqa: BLE001
+        return False
+
+
 def _raised_here_not_in_iterator(e):
     return "is not iterable" in str(e)
 
@@ -363,7 +371,7 @@ class Interp:
                 clo = LOADER.closure_of(fn)
                 self.inlined[clo.qualname] = LOADER.hashes[clo.qualname]
                 return self.call_closure(clo, list(args), kwargs)
-        if callable(fn) and getattr(fn, "__pyvc_model__", False):
+        if callable(fn) and _static_flag(fn, "__pyvc_model__"):
             return fn(*args, **kwargs)
         # all-concrete call to a library / builtin function: run it
         if is_concrete(list(args)) and is_concrete(kwargs) and callable(fn):
@@ -377,7 +385,7 @@ class Interp:
                     raise
                 except Exception as e:  # the real library raised: that is the program's exception
                     raise PyExc(self.make_exc(type(e), *e.args))
-        if callable(fn) and getattr(fn, "__pyvc_model__", False):
+        if callable(fn) and _static_flag(fn, "__pyvc_model__"):
             return fn(*args, **kwargs)
         return self.opaque_call(fn, args, kwargs)
 
